@@ -108,7 +108,7 @@ def run(ctx):
     mods = ["TomlVerif.Props.C17", "driver"]
     lake_build(ctx, mods, {"TomlVerif.Props.C17": "property theorems"})
     audit(ctx, "TomlVerif.Props.C17", "TomlVerif/Props/C17.lean")
-    extra_props(ctx, ["C17RoundTrip"])
+    extra_props(ctx, ["C17RoundTrip", "C17Fix"])
     if ctx.tier == "thorough":
         leanchecker(ctx, "TomlVerif.Props.C17")
     bins = build_both(ctx)
